@@ -248,7 +248,7 @@ func (f *Frame) modMapType(mt *types.Map, ms *modSet) {
 	ks, vs := f.w.Sorts.SortOf(mt.Key()), f.w.Sorts.SortOf(mt.Elem())
 	ms.addFull(mapDomComp(ks, vs), ArraySort(SInt, ArraySort(ks, SBool)))
 	ms.addFull(mapValComp(ks, vs), ArraySort(SInt, ArraySort(ks, vs)))
-	ms.addFull(mapSizeComp, ArraySort(SInt, SInt))
+	ms.addFull(mapSizeComp(ks, vs), ArraySort(SInt, SInt))
 }
 
 func (f *Frame) modMap(li *loopInfo, m ssa.Value, ms *modSet) {
@@ -257,7 +257,7 @@ func (f *Frame) modMap(li *loopInfo, m ssa.Value, ms *modSet) {
 	if base, ok := f.invariantValue(li, m); ok {
 		ms.addTarget(mapDomComp(ks, vs), ArraySort(SInt, ArraySort(ks, SBool)), base.T)
 		ms.addTarget(mapValComp(ks, vs), ArraySort(SInt, ArraySort(ks, vs)), base.T)
-		ms.addTarget(mapSizeComp, ArraySort(SInt, SInt), base.T)
+		ms.addTarget(mapSizeComp(ks, vs), ArraySort(SInt, SInt), base.T)
 		return
 	}
 	f.modMapType(mt, ms)
@@ -870,7 +870,7 @@ func (f *Frame) modTargetExact(env *SpecEnv, c Clause, ms *modSet) bool {
 			ks, vs := f.w.Sorts.SortOf(u.Key()), f.w.Sorts.SortOf(u.Elem())
 			ms.addTarget(mapDomComp(ks, vs), ArraySort(SInt, ArraySort(ks, SBool)), v.T)
 			ms.addTarget(mapValComp(ks, vs), ArraySort(SInt, ArraySort(ks, vs)), v.T)
-			ms.addTarget(mapSizeComp, ArraySort(SInt, SInt), v.T)
+			ms.addTarget(mapSizeComp(ks, vs), ArraySort(SInt, SInt), v.T)
 			return true
 		}
 		return false
